@@ -52,9 +52,9 @@ class AliasPolicy(BasePolicy):
             return state[p]
         if isinstance(expr, ast.Call):
             n = call_name(expr)
-            if n in ("np.atleast_1d", "np.atleast_2d", "np.asarray", "np.asanyarray", "np.ravel", "np.reshape", "np.squeeze", "np.transpose") and expr.args:
-                has_dtype = any(k.arg == "dtype" for k in expr.keywords)
-                return self.eval(expr.args[0], state, flow) if not has_dtype else EMPTY
+            if n in ("np.atleast_1d", "np.atleast_2d", "np.asarray", "np.asanyarray", "np.ravel", "np.reshape", "np.squeeze", "np.transpose", "np.asfarray", "np.ascontiguousarray") and expr.args:
+                # asarray(x, dtype=float) returns x itself when the dtype already matches
+                return self.eval(expr.args[0], state, flow)
             if isinstance(expr.func, ast.Attribute) and expr.func.attr in ("reshape", "ravel", "squeeze", "view", "transpose") :
                 return self.eval(expr.func.value, state, flow)
             return EMPTY
@@ -129,7 +129,11 @@ def check(ctx):
     set_init = [s for t, v, s, k in iter_stores(oinit.node) if isinstance(t, ast.Subscript) and const_str(t.slice) == "useroptions" and isinstance(v, ast.Call) and canon(v.func) == "set"]
     load_calls = [c for c, tg in prog.calls_in(oinit) if load in tg]
     upd = [n for n in ast.walk(oinit.node) if isinstance(n, ast.Call) and canon(n.func) == "self.update" and n.args and canon(n.args[0]) == uparam]
-    prot = [n for n in ast.walk(oinit.node) if isinstance(n, ast.Call) and isinstance(n.func, ast.Attribute) and n.func.attr == "update" and "useroptions" in canon(n.func.value) and n.args and uparam in canon(n.args[0])]
+    prot = [n for n in ast.walk(oinit.node) if isinstance(n, ast.Call) and isinstance(n.func, ast.Attribute) and n.func.attr == "update" and "useroptions" in canon(n.func.value) and n.args
+            and canon(n.args[0]) in (f"{uparam}.keys()", uparam, f"set({uparam})", f"list({uparam})", f"set({uparam}.keys())", f"list({uparam}.keys())")]
+    partial = [n for n in ast.walk(oinit.node) if isinstance(n, ast.Call) and isinstance(n.func, ast.Attribute) and n.func.attr in ("update", "add") and "useroptions" in canon(n.func.value) and n not in prot]
+    for n in partial:
+        ctx.fail(oinit, n, f"only some of the user's keys are added to the protected set ({canon(n.args[0])[:60] if n.args else ''}): the others are overwritten when the next file loads", construct="partial protection of user keys")
     if not (set_init and load_calls and upd and prot):
         ctx.fail(oinit, oinit.node, f"Options.__init__ lacks one of: protected-set creation ({bool(set_init)}), basic load ({bool(load_calls)}), application of the user's dict ({bool(upd)}), protection of its keys ({bool(prot)})", construct="Options.__init__ structure")
     else:
